@@ -91,6 +91,9 @@ namespace awkward {
             bool compatibility_check) const override;
 
     const FormPtr
+      getitem_range() const override;
+
+    const FormPtr
       getitem_field(const std::string& key) const override;
 
     const FormPtr
